@@ -61,16 +61,19 @@ def main():
             shutil.copy(os.path.join(src, f), os.path.join(d, f))
     notes = open(os.path.join(src, "notes.md")).read() if os.path.exists(os.path.join(src, "notes.md")) else ""
     meta["needs_to_manifest"] = notes[:1200]
-    # run the checks against it
-    rc, out = sh("git -C /repo status --porcelain")
-    assert out.strip() == "", "repo not clean: " + out
-    rc, out = sh("git -C /repo apply %s" % os.path.join(d, "patch.diff"))
+    # run the checks against it: in a scratch worktree (VERIF_REPO), so that concurrent runs against
+    # /repo are not disturbed; equivalent to `git -C /repo apply` … `git -C /repo checkout -- .`
+    rw = "/tmp/sc-" + sid + "-run"
+    sh("git -C /repo worktree remove --force %s" % rw)
+    rc, out = sh("git -C /repo worktree add -q %s HEAD" % rw)
+    assert rc == 0, out
+    rc, out = sh("git apply %s" % os.path.join(d, "patch.diff"), cwd=rw)
     assert rc == 0, out
     res = {}
     try:
         for p in [pid] + also:
             t0 = time.time()
-            rc, out = sh("./check %s --tier quick" % p, cwd=V, timeout=3600)
+            rc, out = sh("VERIF_REPO=%s ./check %s --tier quick" % (rw, p), cwd=V, timeout=3600)
             vio = [l for l in out.splitlines() if l.startswith("VIOLATION")]
             res[p] = {"exit": rc, "violation_line": vio[0] if vio else None, "wall_s": round(time.time() - t0, 1)}
             if vio:
@@ -84,7 +87,8 @@ def main():
                     except Exception:
                         pass
     finally:
-        sh("git -C /repo checkout -- . && git -C /repo clean -fdq")
+        sh("git -C /repo worktree remove --force %s" % rw)
+        sh("git checkout -- evidence", cwd=V)
     meta["checks"] = res
     meta["detected"] = any(v["exit"] == 1 for v in res.values())
     meta["detected_with_failing_input"] = any(v["exit"] == 1 and v.get("violation_line") and "no-failing-input-found" not in v["violation_line"] for v in res.values())
